@@ -17,7 +17,7 @@
 (*  eof / close call-outs seen by a registered formatter), had_stale,      *)
 (*  file [exists, stale, lines <<[f, l, el]>>]  (non-comment lines; stale  *)
 (*  = the content is still the one planted before the run),                *)
-(*  loop [done, exc, sel, known, ran2done, ran2, skipped2] -- scenarios    *)
+(*  loop [done, exc, sel, known, ran2done, ran2, skipped2, v2kind, v2, sel3done, exc3, sel3] -- scenarios    *)
 (*  left to run by parse_features(collect_feature_locations(["@file"])),   *)
 (*  all scenarios of the returned features, scenarios entered / reported   *)
 (*  skipped by a second real run on them.                                  *)
@@ -73,6 +73,19 @@ LoopVerdicts(r, m, file) ==
                    ELSE IF ran2 \ may # {} \/ (SeqSet(r.loop.known) \ may) \ SeqSet(r.loop.skipped2) # {}
                    THEN {<<"C17.loop", "second_run", "extra">>} ELSE {})
 
+\* the same list-file name expanded once more in the same process after its content changed (v2 = the non-comment lines
+\* that are in the file now): the selection must follow v2
+ThirdVerdicts(r, m) ==
+   IF ~r.loop.sel3done THEN {}
+   ELSE LET f2 == [exists |-> TRUE, stale |-> FALSE, lines |-> Norm(r.loop.v2)] IN
+        IF ~LoopJudged(m, f2) THEN {}
+        ELSE LET want == Listed(m, f2)
+                 may  == want \cup ExemptNamed(m, f2)
+                 sel  == SeqSet(r.loop.sel3) IN
+             IF r.loop.exc3 # "" THEN {<<"C17.loop", "third_start_crash", r.loop.exc3>>}
+             ELSE IF want \ sel # {} THEN {<<"C17.loop", "third_start", "missing">>}
+             ELSE IF sel \ may # {} THEN {<<"C17.loop", "third_start", "extra">>} ELSE {}
+
 Verdicts(r) ==
    IF ~r.ran THEN {}                       \* the run died: close() may never have come (C01.crash's business)
    ELSE LET m == ModelOf(r)
@@ -80,7 +93,7 @@ Verdicts(r) ==
         (IF r.cfg.dry THEN {}
          ELSE (IF ~ExactOKr(r, m, file) THEN {ExactVerdict(m, file)} ELSE {})
               \cup (IF ~StaleOK(m, file) THEN {<<"C17.stale_removed", IF r.had_stale THEN "stale" ELSE "fresh", "">>} ELSE {}))
-        \cup LoopVerdicts(r, m, file)
+        \cup LoopVerdicts(r, m, file) \cup ThirdVerdicts(r, m)
 
 \* full conformance with the code model (informational)
 Diverges(r) ==
@@ -92,6 +105,9 @@ Diverges(r) ==
         (IF pred # file THEN {"file"} ELSE {})
         \cup (IF r.loop.done /\ file.exists /\ ~file.stale /\ ((r.loop.exc = "") # fb.ok \/ (fb.ok /\ SeqSet(r.loop.sel) # fb.sel))
               THEN {"feedback"} ELSE {})
+        \cup (IF r.loop.sel3done /\ LET fb3 == FeedBack(m, Norm(r.loop.v2)) IN
+                                       (r.loop.exc3 = "") # fb3.ok \/ (fb3.ok /\ SeqSet(r.loop.sel3) # fb3.sel)
+              THEN {"feedback3"} ELSE {})
 
 Next == /\ i <= Len(Rows)
         /\ \A v \in Verdicts(Rows[i]) : PrintT(<<"VERDICT", Rows[i].id, v[1], v[2], v[3]>>)
